@@ -539,3 +539,27 @@ def check_nonnegative_bound(ix, rep, rule='R-GUARD-DOM'):
         rep.fail(rule, f.module.rel, f.qual, 'begin>=0', 'no guard `begin < 0 -> raise RTAMTException`: a bound given by a declared constant may be negative -- declare_const(\'c\',\'int\',\'-5\'), '
                  '`out = always[c,2](a>=1)` is accepted as always[-5,2]', f.node.lineno)
     return 1
+
+
+# ------------------------------------------------------------------------------------------------- R-GAPLOOP (one data set, one count)
+def check_offline_counter_restart(ix, rep, rule='R-GAPLOOP'):
+    """the offline counter is the number of bad gaps of *the* time column supplied: evaluate() starts it at 0 before it walks the gaps (a second evaluate()
+    of a data set with one bad gap would otherwise read 2)"""
+    m = ix.module('rtamt.semantics.abstract_discrete_time_offline_interpreter')
+    n = 0
+    for c in m.classes.values():
+        f = c.methods.get('evaluate')
+        if f is None:
+            continue
+        n += 1
+        rep.analysed(f)
+        counting = [x for x in ast.walk(f.node) if isinstance(x, ast.Call) and isinstance(x.func, ast.Attribute) and x.func.attr == 'update_sampling_violation_counter']
+        first_count_line = min([x.lineno for x in counting] or [10 ** 9])
+        restarts = [st for st in f.node.body if isinstance(st, ast.Assign) and any(_self_attr(t, 'sampling_violation_counter') for t in st.targets)
+                    and ast.unparse(st.value).replace(' ', '') in ('0', 'int(0)') and st.lineno < first_count_line]
+        if restarts:
+            rep.ok(rule, m.rel, f.qual, 'offline:restart', 'the count starts at 0 for every data set', restarts[0].lineno)
+        else:
+            rep.fail(rule, m.rel, f.qual, 'offline:restart', 'evaluate() adds the bad gaps of this data set to the count left by the previous evaluate(): time = [0,1,3] with period 1 s reads 1 after the '
+                     'first evaluate() and 2 after the second, for a time column with one bad gap', f.node.lineno)
+    return n
